@@ -10,16 +10,19 @@ import (
 
 	"github.com/shutter-network/rolling-shutter/rolling-shutter/app"
 	"github.com/shutter-network/rolling-shutter/rolling-shutter/shmsg"
-	"verif/harness/apphist"
 )
 
 // C12 — validator updates always lead to the intended, live validator set.
 
 func TestC12_History(t *testing.T) {
 	rec := recorder("C12")
-	rec.AddRule("(a) rapid histories biased to check-ins (first, repeated, key change before/after the check-in fork, shared validator keys), configuration votes and block-seen reports, n<=6 keypers, every threshold: each ResponseEndBlock.ValidatorUpdates is folded over a reference Tendermint validator set (sorted, no duplicates, removals hit existing keys, total power > 0) and the folded set must equal the model's intended set; after each change checked-in keypers hold > 2/3 of the power; non-trivial = history with at least one non-empty update list. (b) exhaustive pairs of power maps over 4 keys x powers {absent,10,20,30}: fold(old, Diff(old,new)) == new")
+	rec.AddRule("(a) rapid histories (a third on the chain id of a deployed network or one next to it: there the check-in fork follows an eon number) biased to check-ins (first, repeated, key change before/after the check-in fork, shared validator keys), configuration votes and block-seen reports, n<=6 keypers, every threshold: each ResponseEndBlock.ValidatorUpdates is folded over a reference Tendermint validator set (sorted, no duplicates, removals hit existing keys, total power > 0) and the folded set must equal the model's intended set; after each change checked-in keypers hold > 2/3 of the power; non-trivial = history with at least one non-empty update list. (b) exhaustive pairs of power maps over 4 keys x powers {absent,10,20,30}: fold(old, Diff(old,new)) == new")
 	runRapid(t, N(500, 200000), func(rt *rapid.T) {
 		g := genGenesis(rt)
+		if rapid.IntRange(0, 2).Draw(rt, "deployedChainID") == 0 {
+			// chain ids of deployed networks tie the check-in fork to an eon number instead of the genesis height
+			g.ChainID = rapid.SampledFrom(c09ChainIDs[3:]).Draw(rt, "chainID")
+		}
 		c := NewChain(g, 1, func(sig, f string, a ...any) { fatalf(rt, sig, f, a...) })
 		c.CheckVals = true
 		c.Focus = "validators"
@@ -132,19 +135,22 @@ func TestC12_ForkBoundary(t *testing.T) {
 	rec.AddRule("(c) fork boundary: fork height H in 2..6 (or fork enabled from the start / disabled), all genesis keypers check in in block 1, then one generated keyper per block of H-2..H+2 checks in again with a different validator key (0-2 other generated steps per block); same folded-set oracle after every block; non-trivial = a key change delivered in block H-1, H or H+1")
 	runRapid(t, N(150, 20000), func(rt *rapid.T) {
 		g := genGenesis(rt)
+		if rapid.IntRange(0, 2).Draw(rt, "deployedChainID") == 0 {
+			g.ChainID = rapid.SampledFrom(c09ChainIDs[3:]).Draw(rt, "chainID")
+		}
 		c := NewChain(g, 1, func(sig, f string, a ...any) { fatalf(rt, sig, f, a...) })
 		c.CheckVals = true
 		c.Focus = "validators"
 		c.PoolKeys = 6
 		checkin := func(s, vkIdx int, tag string) {
 			m := &shmsg.Message{Payload: &shmsg.Message_CheckIn{CheckIn: &shmsg.CheckIn{ValidatorPublicKey: uni.ValKeys[vkIdx%14], EncryptionPublicKey: uni.EncKeys[s%4]}}}
-			c.DeliverTx(uni.MakeTx(s, apphist.ChainID, c.nextNonce(), m), tag)
+			c.DeliverTx(uni.MakeTx(s, g.chainID(), c.nextNonce(), m), tag)
 		}
 		for _, k := range g.Keypers {
 			checkin(k, 2*k, fmt.Sprintf("s%d/first-checkin", k))
 		}
 		for _, k := range g.Keypers {
-			c.DeliverTx(uni.MakeTx(k, apphist.ChainID, c.nextNonce(), shmsg.NewBlockSeen(0)), fmt.Sprintf("s%d/seen(0)", k))
+			c.DeliverTx(uni.MakeTx(k, g.chainID(), c.nextNonce(), shmsg.NewBlockSeen(0)), fmt.Sprintf("s%d/seen(0)", k))
 		}
 		c.EndBlock()
 		H := g.ForkHeight
